@@ -199,7 +199,9 @@ func Finish(code int) int {
 		}, "", " ")
 		sum := sha256.Sum256(lastFail.Case)
 		path := filepath.Join(dir, "fail-"+hex.EncodeToString(sum[:6])+".json")
-		if err := os.WriteFile(path, body, 0o644); err != nil {
+		if replayOverride != "" {
+			path = replayOverride // replaying one given file: that file is the reproduction
+		} else if err := os.WriteFile(path, body, 0o644); err != nil {
 			fmt.Printf("stats: cannot write replay: %v\n", err)
 		}
 		sh.Replay = path
